@@ -1,6 +1,7 @@
 //! simk — deterministic simulation core for the tiny-std checks (engine A).
 pub mod dec;
 pub mod kern;
+pub mod mem;
 pub mod runner;
 pub mod sched;
 pub mod trace;
